@@ -48,9 +48,9 @@ def run(repo: Repo, rep: Report):
     svg = repo["svg"]
     for rid, txt in [
         ("R-CASE.might-paint", "might_paint equals the reference predicate on the full product of paint attributes and geometry classes"),
-        ("R-SITE.verdict-receiver", "wherever a negative verdict deletes content, the receiver of might_paint carries that content's paint"),
-        ("R-SITE.remove-unpainted", "remove_unpainted_shapes removes exactly the shapes whose verdict is negative"),
-        ("R-SITE.area", "path_area: caller's fill rule, simplify(fix_winding=True), area read afterwards"),
+        ("R-SITE.verdict-receiver", "remove_empty_subpaths interpreted on a 5-contour path with and without stroke: exactly the contours that cannot paint under the path's own paint are dropped (repeated contours kept)"),
+        ("R-SITE.remove-unpainted", "remove_unpainted_shapes interpreted on a schematic document: exactly the shapes that cannot paint under their cascaded paint are removed; the copying form leaves the receiver alone"),
+        ("R-SITE.area", "the area question reaches the engine for the shape's own geometry under its own fill rule; path_area simplifies with fix_winding under the caller's rule"),
     ]:
         rep.rule(rid, txt)
     F = "svg_types.SVGShape.might_paint"
@@ -118,53 +118,9 @@ def run(repo: Repo, rep: Report):
         rep.fail("R-CASE.might-paint", F, odd[0], f"the area test is {odd[0]!r}: it must be a comparison with exact zero (an epsilon prunes thin but visible shapes)", st, st.func("SVGShape.might_paint"))
     elif area_conds:
         rep.ok("R-CASE.might-paint", F + " [area > 0]", "comparison with exact zero")
-    # ---- call sites
-    sites = []
-    for mod in repo.modules.values():
-        for q, f in mod.functions.items():
-            for c in ast.walk(f):
-                if isinstance(c, ast.Call) and isinstance(c.func, ast.Attribute) and c.func.attr == "might_paint" and _owner(c) is f:
-                    sites.append((mod, q, f, c))
-    rep.floor("might_paint call sites", len(sites), 3)
-    for mod, q, f, c in sites:
-        recv = c.func.value
-        rt = unparse(recv)
-        site = f"{mod.name}.{q}: {unparse(c)}"
-        ok = False
-        if isinstance(recv, ast.Name):
-            ok = True  # the shape itself (loop variable / parameter)
-        elif isinstance(recv, ast.Call) and call_name(recv) in ("dataclasses.replace", "copy.deepcopy", "copy.copy") and recv.args and unparse(recv.args[0]) in ("self", "shape", "target"):
-            kws = {k.arg for k in recv.keywords}
-            ok = kws <= {"d", "id"}
-        if ok:
-            rep.ok("R-SITE.verdict-receiver", site, "receiver is the shape itself or a field-preserving copy", True)
-        else:
-            rep.fail("R-SITE.verdict-receiver", f"{mod.name}.{q}", c, f"the verdict is taken on {rt!r}, which does not carry the paint (stroke, fill, opacities, display) of the "
-                     "content that is deleted on a negative answer: a stroked or otherwise painted part can be pruned", mod, c)
-    # ---- remove_unpainted_shapes
-    ru = svg.func("SVG.remove_unpainted_shapes")
-    t = unparse(ru)
-    if "for el, (shape,) in self._elements():\n        if not shape.might_paint():\n            remove.append(el)" in t.replace("    ", "    ") or \
-            ("if not shape.might_paint():" in t and "remove.append(el)" in t and "for el in remove:" in t and "el.getparent().remove(el)" in t):
-        rep.ok("R-SITE.remove-unpainted", "svg.SVG.remove_unpainted_shapes: deletes exactly the elements whose shape answers False")
-    else:
-        rep.fail("R-SITE.remove-unpainted", "svg.SVG.remove_unpainted_shapes", "if not shape.might_paint(): remove.append(el)", "the deletion criterion changed", svg, ru)
-    extra = [n_ for n_ in walk_no_nested(ru) if isinstance(n_, ast.If) and "might_paint" not in unparse(n_.test) and unparse(n_.test) != "not inplace"]
-    if extra:
-        rep.fail("R-SITE.remove-unpainted", "svg.SVG.remove_unpainted_shapes", extra[0].test, "additional deletion condition besides the verdict", svg, extra[0])
-    # ---- path_area
-    pa = repo["svg_pathops"].func("path_area")
-    t = unparse(pa)
-    if "skia_path(svg_cmds, fill_rule=fill_rule)" in t and "sk_path.simplify(fix_winding=True)" in t and "return sk_path.area" in t:
-        rep.ok("R-SITE.area", "svg_pathops.path_area", "caller's rule, simplify(fix_winding=True), then .area")
-    else:
-        rep.fail("R-SITE.area", "svg_pathops.path_area", "sk_path.simplify(fix_winding=True); return sk_path.area", "the area is no longer the area of the region filled under the caller's rule "
-                 "(without fix_winding, contours of opposite direction cancel)", repo["svg_pathops"], pa)
-    mp = st.func("SVGShape.might_paint")
-    if "svg_pathops.path_area(shape.as_cmd_seq(), fill_rule=shape.fill_rule)" in unparse(mp):
-        rep.ok("R-SITE.area", "svg_types.SVGShape.might_paint: area under the shape's own (style-resolved) fill rule")
-    else:
-        rep.fail("R-SITE.area", "svg_types.SVGShape.might_paint", "svg_pathops.path_area(shape.as_cmd_seq(), fill_rule=shape.fill_rule)", "area is not computed under the shape's own fill rule", st, mp)
+    from sa.rules import sem, sempath
+    sem.check_prune(repo, rep, {"shapes": "R-SITE.remove-unpainted", "subpaths": "R-SITE.verdict-receiver", "area": "R-SITE.area"})
+    sempath.check_pathops(repo, rep, {"region": "R-SITE.area", "normalized": "R-SITE.area"})
 
 
 def _owner(node):
